@@ -461,12 +461,20 @@ fn pat_unsupported(p: &Pat) -> bool {
     }
 }
 /// match one term pattern against a term, extending the variable and blank node assignments
-fn unify(p: &TP, t: &T, mu: &mut Mu, sigma: &mut Mu) -> bool {
+fn unify(p: &TP, t: &T, mu: &mut Mu, sigma: &mut Mu) -> bool { unify_at(p, t, mu, sigma, 0) }
+thread_local! {
+    /// measuring device (never used for a verdict): a WRONG reading in which a quoted-triple pattern that is nested inside
+    /// another one and is not ground accepts any term; a case whose answer changes under it is one in which the data holds
+    /// a term that only the INNER pattern tells apart (a false candidate)
+    static INNER_PATTERNS_ACCEPT_ANYTHING: std::cell::Cell<bool> = std::cell::Cell::new(false);
+}
+fn unify_at(p: &TP, t: &T, mu: &mut Mu, sigma: &mut Mu, depth: usize) -> bool {
     match p {
         TP::Const(c) => c == t,
         TP::Var(v) => match mu.get(v) { Some(x) => x == t, None => { mu.insert(v.clone(), t.clone()); true } },
         TP::Bn(b) => match sigma.get(b) { Some(x) => x == t, None => { sigma.insert(b.clone(), t.clone()); true } },
-        TP::Trip(ps) => match t { T::Tr(ts) => (0..3).all(|i| unify(&ps[i], &ts[i], mu, sigma)), _ => false },
+        TP::Trip(_) if depth >= 1 && INNER_PATTERNS_ACCEPT_ANYTHING.with(|f| f.get()) && !tp_ground(p) => true,
+        TP::Trip(ps) => match t { T::Tr(ts) => (0..3).all(|i| unify_at(&ps[i], &ts[i], mu, sigma, depth + 1)), _ => false },
     }
 }
 fn bgp_solutions(ps: &[[TP; 3]], g: &[[T; 3]]) -> Vec<Mu> {
@@ -830,13 +838,219 @@ fn build(quads: &[Quad4], r: &mut Rng) -> LightDataset {
     d
 }
 
+// ---------- datasets of the streams `nested-*`: quoted triples of depth 2 and 3 and their one-place variants ----------
+fn tdepth(t: &T) -> usize { match t { T::Tr(b) => 1 + b.iter().map(tdepth).max().unwrap_or(0), _ => 0 } }
+fn tpdepth(p: &TP) -> usize { match p { TP::Trip(b) => 1 + b.iter().map(tpdepth).max().unwrap_or(0), TP::Const(t) => tdepth(t), _ => 0 } }
+fn tp_ground(p: &TP) -> bool { match p { TP::Const(_) => true, TP::Trip(b) => b.iter().all(tp_ground), _ => false } }
+/// an atom (never a quoted triple) for position `pos` of a triple whose predicate is `pred` (the sorts of `gen_object`)
+fn atom_at(r: &mut Rng, pos: usize, pred: &str) -> T {
+    let res = [ti("tag:a"), ti("tag:b"), ti("tag:c"), ti("tag:d"), T::Bn("x1".into()), T::Bn("x2".into())];
+    if pos == 0 { return r.pick(&res).clone() }
+    match pred { "tag:n" => tint(r.ps(&["0", "1", "2", "5", "007", "-4"])), "tag:s" => tstr(r.ps(&["a", "b", "", "lit"])), "tag:v" => r.pick(&anys()).clone(), _ => r.pick(&res).clone() }
+}
+fn resource_pred(p: &str) -> bool { matches!(p, "tag:p" | "tag:q" | "tag:v") }
+/// a quoted triple of depth exactly `depth` >= 1; the nesting goes through the subject, the object, or both
+fn gen_deep(r: &mut Rng, depth: usize) -> T {
+    if depth <= 1 { let p = r.ps(&["tag:p", "tag:p", "tag:q", "tag:n", "tag:s", "tag:v"]); let s = atom_at(r, 0, p); let o = atom_at(r, 2, p); return ttr(s, ti(p), o) }
+    let through_object = r.chance(1, 2);
+    let p = if through_object { r.ps(&["tag:p", "tag:q", "tag:q", "tag:v"]) } else { r.ps(&["tag:p", "tag:q", "tag:q", "tag:n", "tag:s", "tag:v"]) };
+    let (s, o);
+    if through_object { o = gen_deep(r, depth - 1); s = if r.chance(1, 4) { let d = r.range(1, depth - 1); gen_deep(r, d) } else { atom_at(r, 0, p) }; }
+    else { s = gen_deep(r, depth - 1); o = if resource_pred(p) && r.chance(1, 4) { let d = r.range(1, depth - 1); gen_deep(r, d) } else { atom_at(r, 2, p) }; }
+    ttr(s, ti(p), o)
+}
+fn term_at<'a>(t: &'a T, path: &[usize]) -> &'a T { match (path.split_first(), t) { (Some((i, rest)), T::Tr(b)) => term_at(&b[*i], rest), _ => t } }
+fn replace_at(t: &T, path: &[usize], new: &T) -> T {
+    match (path.split_first(), t) { (Some((i, rest)), T::Tr(b)) => { let mut c = (**b).clone(); c[*i] = replace_at(&b[*i], rest, new); T::Tr(Box::new(c)) } _ => new.clone() }
+}
+fn all_paths(t: &T, here: &mut Vec<usize>, out: &mut Vec<Vec<usize>>) {
+    out.push(here.clone());
+    if let T::Tr(b) = t { for i in 0..3 { here.push(i); all_paths(&b[i], here, out); here.pop(); } }
+}
+/// The terms obtained from the quoted triple `t` by ONE change at ONE place (any depth): another constant where there is
+/// an atom or a predicate; a quoted triple where there is an atom; an atom, or one of its own components, where there is a
+/// quoted triple.  These are the terms a quoted-triple pattern generalised from `t` must tell apart from `t`.
+fn one_place_variants(t: &T, r: &mut Rng) -> Vec<T> {
+    let (mut paths, mut out) = (vec![], vec![]);
+    all_paths(t, &mut vec![], &mut paths);
+    for path in paths {
+        let sub = term_at(t, &path);
+        let Some((&pos, up)) = path.split_last() else {
+            // the whole term: an atom, or one of its components, instead of the quoted triple
+            out.push(atom_at(r, 0, "tag:p"));
+            if let T::Tr(b) = t { if !b[0].is_literal() { out.push(b[0].clone()) } }
+            continue
+        };
+        let pred = match term_at(t, up) { T::Tr(b) => match &b[1] { T::Iri(p) => p.clone(), _ => "tag:v".to_string() }, _ => unreachable!() };
+        if pos == 1 { if pred != "tag:v" { let other: Vec<&str> = ["tag:p", "tag:q", "tag:n", "tag:s"].into_iter().filter(|x| *x != pred).collect(); let o: &str = other[r.below(other.len())]; out.push(replace_at(t, &path, &ti(o))); } continue }
+        match sub {
+            T::Tr(b) => {
+                out.push(replace_at(t, &path, &atom_at(r, pos, if pos == 0 { "tag:p" } else { pred.as_str() })));
+                let comp = if pos == 0 || r.chance(1, 2) { &b[0] } else { &b[2] };
+                if pos == 2 || !comp.is_literal() { out.push(replace_at(t, &path, comp)); }
+                // a quoted triple of another depth
+                let d = tdepth(sub); out.push(replace_at(t, &path, &gen_deep(r, if d > 1 { d - 1 } else { 2 })));
+            }
+            _ => {
+                for _ in 0..6 { let a = atom_at(r, pos, &pred); if a != *sub { out.push(replace_at(t, &path, &a)); break } }
+                if pos == 0 || resource_pred(&pred) { out.push(replace_at(t, &path, &gen_deep(r, 1))); }
+            }
+        }
+    }
+    let mut seen = HashSet::new();
+    out.retain(|m| m != t && seen.insert(m.clone()));
+    out
+}
+/// 2..3 families (a quoted triple of depth 2 or 3 and a sample of its one-place variants), each member the subject and / or
+/// the object of a triple of its own (`<< .. >> <tag:q> <tag:zN>`, `<tag:zN> <tag:p> << .. >>`) in the default graph and / or
+/// in named graphs; some of the quoted triples (of every depth) are asserted as well, so that their components can be bound
+/// by an ordinary triple pattern
+fn gen_nested_dataset(r: &mut Rng) -> Vec<Quad4> {
+    let names = [ti("tag:g1"), ti("tag:g2"), T::Bn("g3".into())];
+    let ngraphs = *r.pick(&[1usize, 2, 2, 3]);
+    let mut quads: Vec<Quad4> = vec![];
+    let mut z = 0;
+    let place = |r: &mut Rng| -> Option<T> { if r.chance(1, 2) { None } else { Some(names[r.below(ngraphs)].clone()) } };
+    for _ in 0..r.range(2, 3) {
+        let depth = *r.pick(&[2usize, 2, 3]);
+        let t = gen_deep(r, depth);
+        let mut family = one_place_variants(&t, r);
+        for i in (1..family.len()).rev() { let j = r.below(i + 1); family.swap(i, j); }
+        family.truncate(r.range(6, 9));
+        family.insert(0, t.clone());
+        for m in &family {
+            z += 1; let zn = ti(&format!("tag:z{z}"));
+            let side = if m.is_literal() { 2 } else { r.below(3) };
+            for g in if r.chance(1, 5) { vec![None, Some(names[r.below(ngraphs)].clone())] } else { vec![place(r)] } {
+                if side != 2 { quads.push((m.clone(), ti("tag:q"), zn.clone(), g.clone())); }
+                if side != 0 { quads.push((zn.clone(), ti("tag:p"), m.clone(), g.clone())); }
+            }
+        }
+        // asserted quoted triples
+        let (mut paths, mut here) = (vec![], vec![]); all_paths(&t, &mut here, &mut paths);
+        for path in paths { if let T::Tr(b) = term_at(&t, &path) { if r.chance(3, 5) { quads.push((b[0].clone(), b[1].clone(), b[2].clone(), place(r))); } } }
+    }
+    for _ in 0..r.range(2, 5) { let p = r.ps(&["tag:p", "tag:q", "tag:n"]); quads.push((atom_at(r, 0, p), ti(p), atom_at(r, 2, p), place(r))); }
+    let mut seen = HashSet::new();
+    quads.retain(|q| seen.insert(q.clone()));
+    quads
+}
+/// the hand-written dataset of the directed `nested` queries: B2 = << << a p b >> q c >> and B3 = << d p B2 >> with their
+/// one-place variants, as subjects (`.. <tag:q> <tag:zN>`) and objects (`<tag:zN> <tag:p> ..`), in the default graph and in
+/// two named graphs
+fn directed_nested_dataset() -> Vec<Quad4> {
+    let i = ti;
+    let apb = || ttr(i("tag:a"), i("tag:p"), i("tag:b"));
+    let b2 = |inner: T| ttr(inner, i("tag:q"), i("tag:c"));
+    let members: Vec<T> = vec![
+        b2(apb()),                                                          // z1  B2
+        b2(ttr(i("tag:a"), i("tag:q"), i("tag:b"))),                        // z2  inner predicate differs
+        b2(ttr(i("tag:a"), i("tag:p"), i("tag:c"))),                        // z3  inner object differs
+        b2(ttr(i("tag:d"), i("tag:p"), i("tag:b"))),                        // z4  inner subject differs
+        b2(i("tag:a")),                                                     // z5  an atom where B2 has a quoted triple
+        ttr(apb(), i("tag:q"), i("tag:d")),                                 // z6  outer object differs
+        ttr(apb(), i("tag:p"), i("tag:c")),                                 // z7  outer predicate differs
+        ttr(apb(), i("tag:q"), apb()),                                      // z8  a quoted triple where B2 has an atom
+        apb(),                                                              // z9  depth 1
+        b2(ttr(T::Bn("x1".into()), i("tag:p"), i("tag:b"))),                // z10 a blank node inside
+        b2(ttr(i("tag:a"), i("tag:p"), tint("1"))),                         // z11 a literal inside
+        ttr(i("tag:d"), i("tag:p"), b2(apb())),                             // z12 B3
+        ttr(i("tag:d"), i("tag:p"), b2(ttr(i("tag:a"), i("tag:p"), i("tag:c")))),   // z13 innermost object differs
+        ttr(i("tag:d"), i("tag:p"), b2(ttr(i("tag:a"), i("tag:q"), i("tag:b")))),   // z14 innermost predicate differs
+        ttr(i("tag:d"), i("tag:p"), b2(i("tag:a"))),                        // z15 an atom at depth 3
+        ttr(i("tag:d"), i("tag:p"), apb()),                                 // z16 depth 2 where B3 has depth 3
+        ttr(i("tag:d"), i("tag:p"), i("tag:a")),                            // z17 depth 1 where B3 has depth 3
+        ttr(i("tag:c"), i("tag:p"), b2(apb())),                             // z18 outer subject differs
+        ttr(b2(apb()), i("tag:p"), b2(apb())),                              // z19 nesting on both sides
+        ttr(i("tag:d"), i("tag:p"), ttr(apb(), i("tag:q"), ttr(i("tag:c"), i("tag:p"), i("tag:c")))),   // z20 a quoted triple at depth 3 where B3 has an atom
+    ];
+    let (g1, g2) = (Some(i("tag:g1")), Some(i("tag:g2")));
+    let mut quads: Vec<Quad4> = vec![];
+    for (k, m) in members.iter().enumerate() {
+        let zn = i(&format!("tag:z{}", k + 1));
+        quads.push((m.clone(), i("tag:q"), zn.clone(), None));
+        quads.push((zn.clone(), i("tag:p"), m.clone(), None));
+        if k % 2 == 0 { quads.push((m.clone(), i("tag:q"), zn.clone(), g1.clone())); }
+        if k % 3 == 0 { quads.push((zn.clone(), i("tag:p"), m.clone(), g2.clone())); }
+    }
+    for (s, p, o) in [("tag:a", "tag:p", "tag:b"), ("tag:a", "tag:p", "tag:c"), ("tag:d", "tag:p", "tag:b"), ("tag:a", "tag:q", "tag:b")] { quads.push((i(s), i(p), i(o), None)); }
+    quads.push((i("tag:a"), i("tag:p"), i("tag:b"), g1.clone()));
+    quads.push((i("tag:a"), i("tag:p"), i("tag:c"), g2.clone()));
+    quads
+}
+/// directed `nested` queries (all on the dataset above): quoted-triple patterns of depth 2 and 3, in subject and in object
+/// position, whose inner patterns mix constants, fresh / repeated / already bound variables and blank node placeholders;
+/// in a BGP, inside GRAPH, inside [NOT] EXISTS; SELECT and ASK
+fn directed_nested() -> Vec<(&'static str, String)> {
+    let mut out: Vec<(&'static str, String)> = vec![];
+    // inner patterns for << INNER <tag:q> ?o >> (depth 2) -- each also used at depth 3, in both positions and in the wrappers
+    let inners = [
+        "<< ?a ?b ?c >>", "<< ?a <tag:p> ?c >>", "<< ?a <tag:q> ?c >>", "<< <tag:a> ?b ?c >>", "<< ?a ?b <tag:b> >>", "<< <tag:a> <tag:p> ?c >>", "<< ?a <tag:p> <tag:b> >>",
+        "<< <tag:d> ?b <tag:b> >>", "<< ?a ?b ?a >>", "<< ?a ?b ?o >>", "<< _:i <tag:p> _:j >>", "<< [] ?b [] >>", "<< _:i ?b _:i >>", "<< ?a <tag:p> 1 >>", "<< ?a <tag:p> \"1\" >>",
+        "<< <tag:a> <tag:p> <tag:b> >>", "<< <tag:a> <tag:p> <tag:zz> >>", "<< << ?a ?b ?c >> ?e ?f >>",
+    ];
+    for inner in inners {
+        out.push(("nested-depth2-subject", format!("SELECT * {{ << {inner} <tag:q> ?o >> <tag:q> ?z }}")));
+        out.push(("nested-depth2-object", format!("SELECT * {{ ?z <tag:p> << {inner} ?q ?o >> }}")));
+        out.push(("nested-depth3-object", format!("SELECT * {{ ?z <tag:p> << <tag:d> <tag:p> << {inner} <tag:q> ?o >> >> }}")));
+        out.push(("nested-depth3-subject", format!("SELECT ?z {{ << ?d ?p2 << {inner} ?q <tag:c> >> >> <tag:q> ?z }}")));
+    }
+    for inner in &inners[..10] {
+        out.push(("nested-in-graph", format!("SELECT * {{ GRAPH <tag:g1> {{ << {inner} <tag:q> ?o >> <tag:q> ?z }} }}")));
+        out.push(("nested-in-graph", format!("SELECT * {{ GRAPH ?g {{ ?z <tag:p> << {inner} ?q ?o >> }} }}")));
+        out.push(("nested-in-graph", format!("SELECT * {{ GRAPH ?g {{ ?z <tag:p> << <tag:d> <tag:p> << {inner} <tag:q> ?o >> >> }} }}")));
+        out.push(("nested-in-exists", format!("SELECT * {{ ?s <tag:q> ?z FILTER EXISTS {{ << {inner} <tag:q> ?o >> <tag:q> ?z }} }}")));
+        out.push(("nested-in-exists", format!("SELECT * {{ ?z <tag:p> ?t FILTER NOT EXISTS {{ ?z <tag:p> << {inner} ?q ?o >> }} }}")));
+        out.push(("nested-in-exists", format!("SELECT * {{ ?a <tag:p> ?c FILTER EXISTS {{ ?z <tag:p> << <tag:d> <tag:p> << {inner} <tag:q> ?o >> >> }} }}")));
+        out.push(("nested-in-exists", format!("SELECT * {{ GRAPH ?g {{ ?s <tag:q> ?z FILTER EXISTS {{ << {inner} <tag:q> ?o >> <tag:q> ?z }} }} }}")));
+        out.push(("nested-in-graph", format!("SELECT * {{ GRAPH ?g {{ << ?d ?p2 << {inner} ?q <tag:c> >> >> <tag:q> ?z }} }}")));
+        out.push(("nested-in-exists", format!("SELECT * {{ ?s <tag:q> ?z FILTER EXISTS {{ << ?d ?p2 << {inner} ?q <tag:c> >> >> <tag:q> ?z }} }}")));
+        out.push(("nested-ask", format!("ASK {{ << {inner} <tag:q> <tag:c> >> <tag:q> <tag:z5> }}")));
+        out.push(("nested-ask", format!("ASK {{ << {inner} <tag:q> <tag:c> >> <tag:q> <tag:z1> }}")));
+        out.push(("nested-ask", format!("ASK {{ <tag:z17> <tag:p> << <tag:d> <tag:p> {inner} >> }}")));
+    }
+    for q in [
+        // variables bound earlier (by an ordinary triple pattern, by another quoted-triple pattern), in both orders
+        "SELECT * { ?a <tag:p> ?c . << << ?a <tag:p> ?c >> <tag:q> ?o >> <tag:q> ?z }",
+        "SELECT * { << << ?a <tag:p> ?c >> <tag:q> ?o >> <tag:q> ?z . ?a <tag:p> ?c }",
+        "SELECT * { ?a <tag:q> ?c . << << ?a <tag:p> ?c >> <tag:q> ?o >> <tag:q> ?z }",
+        "SELECT * { ?a <tag:p> ?x . ?z <tag:p> << ?d <tag:p> << << ?a ?b ?x >> <tag:q> ?o >> >> }",
+        "SELECT * { ?a ?b ?c . ?z <tag:p> << << ?a ?b ?c >> <tag:q> << ?a ?b ?c >> >> }",
+        "SELECT * { << ?i <tag:q> ?o >> <tag:q> ?z . ?y <tag:p> << <tag:d> <tag:p> << ?i <tag:q> ?o >> >> }",
+        "SELECT * { << ?i <tag:q> ?o >> <tag:q> ?z . ?y <tag:p> << <tag:d> <tag:p> << ?i <tag:q> ?o2 >> >> . ?y <tag:p> << ?d ?p << << ?a <tag:p> ?c >> ?q ?o >> >> }",
+        "SELECT * { << << ?a <tag:p> ?c >> <tag:q> ?o >> <tag:q> ?z . << << ?a <tag:q> ?c >> <tag:q> ?o >> <tag:q> ?y }",
+        "SELECT * { _:s <tag:q> ?z . ?y <tag:p> << <tag:d> <tag:p> _:s >> }",
+        "SELECT * { << _:i <tag:q> <tag:c> >> <tag:q> ?z . << _:i <tag:q> << ?a ?b ?c >> >> <tag:q> ?y }",
+        // the whole quoted triple bound first: the nested pattern is then ground (collapsed), partially bound, or unbound
+        "SELECT * { ?z <tag:p> ?t . ?t <tag:q> ?y }",
+        "SELECT * { ?z <tag:p> << ?d ?p ?t >> . ?t <tag:q> ?y }",
+        "SELECT * { ?t <tag:q> ?y . ?z <tag:p> << ?d ?p ?t >> }",
+        "SELECT * { ?z <tag:p> << ?d <tag:p> << ?i ?q ?o >> >> . << ?i ?q ?o >> <tag:q> ?y }",
+        "SELECT DISTINCT ?a ?c { { ?z <tag:p> << << ?a <tag:p> ?c >> ?q ?o >> } UNION { << << ?a <tag:q> ?c >> ?q ?o >> <tag:q> ?z } }",
+        "SELECT * { { SELECT ?a ?c { ?a <tag:p> ?c } } FILTER EXISTS { << << ?a <tag:p> ?c >> <tag:q> ?o >> <tag:q> ?z } }",
+        "SELECT * { ?a <tag:p> ?c FILTER NOT EXISTS { ?z <tag:p> << ?d ?p << << ?a <tag:p> ?c >> ?q ?o >> >> } }",
+        "SELECT * { ?a <tag:p> ?c FILTER EXISTS { GRAPH ?g { << << ?a <tag:p> ?c >> <tag:q> ?o >> <tag:q> ?z } } }",
+        "SELECT * { ?a <tag:p> ?c BIND(EXISTS { << << ?a <tag:p> ?c >> <tag:q> ?o >> <tag:q> ?z } AS ?e) }",
+        "SELECT * { << << ?a ?b ?c >> ?p ?o >> <tag:q> ?z FILTER(sameTerm(?a, <tag:a>)) }",
+        "SELECT * { << << ?a ?b ?c >> ?p ?o >> <tag:q> ?z } OFFSET 1 LIMIT 3",
+        "ASK { << << ?a ?b ?c >> ?p ?o >> <tag:q> <tag:z9> }",
+        "ASK { << << ?a <tag:p> ?c >> ?p ?o >> <tag:q> <tag:z2> }",
+        "ASK { <tag:z16> <tag:p> << ?d ?p << << ?a ?b ?c >> ?q ?o >> >> }",
+        "ASK { <tag:z14> <tag:p> << ?d ?p << << ?a <tag:p> ?c >> ?q ?o >> >> }",
+        "ASK { <tag:z13> <tag:p> << ?d ?p << << ?a <tag:p> ?c >> ?q ?o >> >> }",
+    ] { out.push(("nested-joins", q.to_string())); }
+    out
+}
+
 /// Sorts of variables (which expression forms may use them, see Eval.v): a variable is "unsafe" as
 /// soon as one occurrence is the object of a triple pattern whose predicate is tag:v or a variable
 /// (it may then hold a decimal, a double, a dateTime, a language-tagged string, ...): such variables
 /// only occur in BOUND, sameTerm and comparisons with an IRI or a string constant.
 /// Triple patterns are mostly obtained by generalising triples of the dataset (so that there are
 /// solutions); `wit` remembers which term each variable stood for, to build joins on purpose.
-struct Gen<'a> { r: &'a mut Rng, quads: &'a [Quad4], unsafe_vars: BTreeSet<String>, upper: bool, wit: Vec<(String, T)>, bn: usize, bnwit: Vec<(String, T)>, fresh: usize }
+struct Gen<'a> { r: &'a mut Rng, quads: &'a [Quad4], unsafe_vars: BTreeSet<String>, upper: bool, wit: Vec<(String, T)>, bn: usize, bnwit: Vec<(String, T)>, fresh: usize,
+    /// the streams `nested-*`: triple patterns keep the quoted-triple structure of the data down to depth 3 (see `nested_term`)
+    nested: bool }
 const VARS: &[&str] = &["s", "o", "x", "y", "z", "g", "w", "p", "q"];
 fn safe_pred(p: &str) -> bool { matches!(p, "tag:p" | "tag:q" | "tag:s" | "tag:n") }
 impl<'a> Gen<'a> {
@@ -882,6 +1096,7 @@ impl<'a> Gen<'a> {
             if !safe_pred(p) { self.unsafe_vars.insert(o.clone()); }
             return format!("?{s} <{p}> ?{o}")
         }
+        if self.nested { return self.nested_triple_pat(&cands) }
         let q = (*self.r.pick(&cands)).clone();
         let ps = match &q.1 { T::Iri(p) => safe_pred(p), _ => false };
         let p = self.gen_term(&q.1, 1, true, 0);
@@ -889,6 +1104,80 @@ impl<'a> Gen<'a> {
         let s = self.gen_term(&q.0, 0, true, 0);
         let o = self.gen_term(&q.2, 2, pred_safe, 0);
         format!("{s} {p} {o}")
+    }
+    /// (streams `nested-*`) a triple pattern generalised from a quad whose subject or object is, mostly, a quoted triple of
+    /// depth 2 or 3
+    fn nested_triple_pat(&mut self, cands: &[&Quad4]) -> String {
+        let deep: Vec<&Quad4> = cands.iter().copied().filter(|q| tdepth(&q.0).max(tdepth(&q.2)) >= 2).collect();
+        let q = if !deep.is_empty() && self.r.chance(4, 5) { (*self.r.pick(&deep)).clone() } else { (*self.r.pick(cands)).clone() };
+        let ps = match &q.1 { T::Iri(p) => safe_pred(p), _ => false };
+        let p = if self.r.chance(9, 10) { q.1.sparql(self.upper) } else { let v = self.var_for(&q.1); format!("?{v}") };
+        let pred_safe = ps && !p.starts_with('?');
+        // the side that is written first gets the first occurrence of a repeated variable / blank node label
+        if self.r.chance(1, 2) { let s = self.nested_term(&q.0, 0, true, 0); let o = self.nested_term(&q.2, 2, pred_safe, 0); format!("{s} {p} {o}") }
+        else { let o = self.nested_term(&q.2, 2, pred_safe, 0); let s = self.nested_term(&q.0, 0, true, 0); format!("{s} {p} {o}") }
+    }
+    /// (streams `nested-*`) generalise the term `t` KEEPING its quoted-triple structure down to depth 3: a quoted triple mostly
+    /// becomes a quoted-triple pattern whose components are generalised in turn, so that the inner patterns are NOT ground;
+    /// the leaves are constants (now and then one that is not the data's), fresh / repeated / already bound variables (the
+    /// witness table `wit` is shared by the whole query, so a variable bound by an earlier triple pattern or by the group
+    /// around an EXISTS comes back), blank node placeholders (`[]`, fresh and repeated labels) -- and now and then a
+    /// quoted-triple pattern where the data has an atom
+    fn nested_term(&mut self, t: &T, pos: usize, pred_safe: bool, depth: usize) -> String {
+        let as_var = |me: &mut Self| { let v = me.var_for(t); if pos == 2 && !pred_safe { me.unsafe_vars.insert(v.clone()); } format!("?{v}") };
+        if pos == 1 {
+            let k = self.r.below(100);
+            return if k < 66 { t.sparql(self.upper) } else if k < 74 { format!("<{}>", self.r.ps(&["tag:p", "tag:q", "tag:n"])) } else { let v = self.var_for(t); format!("?{v}") }
+        }
+        if let T::Tr(b) = t {
+            let k = self.r.below(100);
+            if depth < 3 && k < 82 {
+                let ps = match &b[1] { T::Iri(p) => safe_pred(p), _ => false };
+                let p = self.nested_term(&b[1], 1, true, depth + 1);
+                let inner_safe = ps && !p.starts_with('?');
+                let (s, o) = if self.r.chance(1, 2) { let s = self.nested_term(&b[0], 0, true, depth + 1); let o = self.nested_term(&b[2], 2, inner_safe, depth + 1); (s, o) }
+                             else { let o = self.nested_term(&b[2], 2, inner_safe, depth + 1); let s = self.nested_term(&b[0], 0, true, depth + 1); (s, o) };
+                return format!("<< {s} {p} {o} >>")
+            }
+            if k < 88 && !has_bnode(t) { return t.sparql(self.upper) }      // a ground quoted-triple pattern
+        }
+        let k = self.r.below(100);
+        if k < 32 { return as_var(self) }
+        if k < 58 && !has_bnode(t) && !matches!(t, T::Tr(_)) { return t.sparql(self.upper) }
+        if k < 64 { return format!("<{}>", self.r.ps(&["tag:a", "tag:b", "tag:c", "tag:d", "tag:zz"])) }      // a constant that need not be the data's
+        if k < 70 && depth < 3 && (pos == 0 || pred_safe) {                     // a quoted-triple pattern where the data has (mostly) an atom
+            let (a, c) = (self.var(), self.var());
+            return format!("<< ?{a} {} ?{c} >>", self.r.ps(&["<tag:p>", "<tag:q>", "?p"]))
+        }
+        if k < 88 {
+            if self.r.chance(1, 5) { return "[]".into() }
+            let same: Vec<String> = self.bnwit.iter().filter(|(_, x)| x == t).map(|(v, _)| v.clone()).collect();
+            if !same.is_empty() && self.r.chance(2, 3) { return format!("_:{}", self.r.pick(&same)) }
+            if !self.bnwit.is_empty() && self.r.chance(1, 8) { return format!("_:{}", self.r.pick(&self.bnwit).0) }      // a label repeated over (mostly) different terms
+            self.bn += 1; let l = format!("b{}", self.bn); self.bnwit.push((l.clone(), t.clone()));
+            return format!("_:{l}")
+        }
+        as_var(self)
+    }
+    /// the stream `nested-bgp`: a BGP of 1..3 such triple patterns -- alone, inside GRAPH (constant or variable name), inside
+    /// [NOT] EXISTS under a BGP that binds some of its variables, in a UNION, in a sub-select, under FILTER / BIND
+    fn nested_query(&mut self) -> String {
+        let names: Vec<T> = self.quads.iter().filter_map(|q| q.3.clone()).collect::<BTreeSet<_>>().into_iter().collect();
+        let graph: Option<T> = if !names.is_empty() && self.r.chance(2, 5) { Some(self.r.pick(&names).clone()) } else { None };
+        let mut bgp = |me: &mut Self, sizes: &[usize]| -> String { let n = *me.r.pick(sizes); me.bnwit.clear(); (0..n).map(|_| me.triple_pat(&graph)).collect::<Vec<_>>().join(" . ") };
+        let first = bgp(self, &[1, 1, 1, 2, 2, 3]);
+        let mut body = match self.r.below(12) {
+            0..=4 => first,
+            5 | 6 | 7 => { let inner = bgp(self, &[1, 1, 2]); format!("{first} FILTER {}EXISTS {{ {inner} }}", self.r.ps(&["", "", "NOT "])) }
+            8 => { let second = bgp(self, &[1, 1, 2]); format!("{{ {first} }} UNION {{ {second} }}") }
+            9 => format!("{{ SELECT {}* WHERE {{ {first} }} }}", self.r.ps(&["", "DISTINCT "])),
+            10 => { let (v, w) = (self.var(), self.var()); match self.r.below(3) { 0 => format!("{first} FILTER(BOUND(?{v}))"), 1 => format!("{first} FILTER({}sameTerm(?{v}, ?{w}))", self.r.ps(&["", "!"])), _ => format!("{first} FILTER(!BOUND(?{v}) || sameTerm(?{w}, ?{w}))") } }
+            _ => { let v = self.var(); self.fresh += 1; format!("{first} BIND(?{v} AS ?k{})", self.fresh) }
+        };
+        if let Some(n) = &graph { body = if has_bnode(n) || self.r.chance(1, 2) { let v = if self.r.chance(1, 2) { "g".to_string() } else { self.var_for(n) }; format!("GRAPH ?{v} {{ {body} }}") } else { format!("GRAPH {} {{ {body} }}", n.sparql(false)) } }
+        if self.r.chance(1, 6) { return format!("ASK {{ {body} }}") }
+        let proj = if self.r.chance(2, 3) { "*".to_string() } else { (0..self.r.range(1, 3)).map(|_| format!("?{}", self.var())).collect::<BTreeSet<_>>().into_iter().collect::<Vec<_>>().join(" ") };
+        format!("SELECT {}{proj} WHERE {{ {body} }}", if self.r.chance(1, 5) { "DISTINCT " } else { "" })
     }
     fn bgp(&mut self, graph: &Option<T>) -> String {
         let n = *self.r.pick(&[0usize, 1, 1, 1, 2, 2, 2, 3, 4]);
@@ -1384,6 +1673,48 @@ fn exists_shapes(p: &Pat, inside_graph: bool, depth: usize, out: &mut BTreeSet<S
         exists_shapes(q, inside_graph, depth + 1, out);
     }
 }
+/// where quoted-triple patterns of depth >= 2 with a non-ground INNER pattern occur (for the input distribution)
+fn nested_shapes(p: &Pat, in_graph: bool, in_exists: bool, out: &mut BTreeSet<String>) {
+    fn ex(e: &Ex, in_graph: bool, out: &mut BTreeSet<String>) {
+        match e { Ex::Exists(p) => nested_shapes(p, in_graph, true, out), Ex::Not(a) | Ex::Un(_, a) => ex(a, in_graph, out), Ex::Or(a, b) | Ex::And(a, b) | Ex::Bin(_, a, b) => { ex(a, in_graph, out); ex(b, in_graph, out) } _ => {} }
+    }
+    fn inner_kinds(t: &TP, depth: usize, out: &mut BTreeSet<&'static str>) {
+        if let TP::Trip(b) = t {
+            if depth >= 1 && !tp_ground(t) {
+                out.insert("inner-non-ground");
+                for x in b.iter() { match x { TP::Var(_) => { out.insert("inner-with-variable"); } TP::Bn(_) => { out.insert("inner-with-blank-node-placeholder"); } TP::Const(_) => { out.insert("inner-with-constant"); } TP::Trip(_) => {} } }
+            }
+            for x in b.iter() { inner_kinds(x, depth + 1, out) }
+        }
+    }
+    match p {
+        Pat::Bgp(ps) => {
+            let mut bound_before: BTreeSet<String> = BTreeSet::new();
+            for t in ps {
+                for (pos, x) in t.iter().enumerate() {
+                    let d = tpdepth(x);
+                    let mut kinds = BTreeSet::new(); inner_kinds(x, 0, &mut kinds);
+                    if d >= 2 && kinds.contains("inner-non-ground") {
+                        let place = if in_exists { "inside-EXISTS" } else if in_graph { "inside-GRAPH" } else { "in-a-BGP" };
+                        out.insert(format!("nested:depth-{}-{}-{place}", d.min(3), if pos == 0 { "subject" } else { "object" }));
+                        for k in kinds { out.insert(format!("nested:{k}")); }
+                        let mut vs = BTreeSet::new(); tp_vars(x, &mut vs);
+                        if vs.iter().any(|v| bound_before.contains(v)) { out.insert("nested:inner-variable-bound-by-an-earlier-triple-pattern".into()); }
+                        let mut occ = vec![]; fn occs(t: &TP, out: &mut Vec<String>) { match t { TP::Var(v) => out.push(format!("?{v}")), TP::Bn(b) => out.push(format!("_:{b}")), TP::Trip(b) => b.iter().for_each(|x| occs(x, out)), _ => {} } } occs(x, &mut occ);
+                        let distinct: BTreeSet<&String> = occ.iter().collect(); if distinct.len() < occ.len() { out.insert("nested:repeated-variable-or-label-inside-one-pattern".into()); }
+                    }
+                }
+                t.iter().for_each(|x| tp_vars(x, &mut bound_before));
+            }
+        }
+        Pat::Filter(e, i) => { ex(e, in_graph, out); nested_shapes(i, in_graph, in_exists, out) }
+        Pat::Extend(i, _, e) => { ex(e, in_graph, out); nested_shapes(i, in_graph, in_exists, out) }
+        Pat::Union(l, r) => { nested_shapes(l, in_graph, in_exists, out); nested_shapes(r, in_graph, in_exists, out) }
+        Pat::Graph(_, i) => nested_shapes(i, true, in_exists, out),
+        Pat::OrderBy(i, _) | Pat::Project(i, _) | Pat::Distinct(i) | Pat::Slice(i, _, _) => nested_shapes(i, in_graph, in_exists, out),
+        Pat::Unsup(_) => {}
+    }
+}
 fn collect_ops(p: &Pat, out: &mut BTreeSet<&'static str>) {
     match p {
         Pat::Bgp(ps) => { out.insert(match ps.len() { 0 => "bgp0", 1 => "bgp1", _ => "bgp2+" }); for t in ps { for x in t { match x { TP::Bn(_) => { out.insert("bnode-placeholder"); } TP::Trip(_) => { out.insert("quoted-pattern"); } _ => {} } } } }
@@ -1404,7 +1735,7 @@ fn main() {
     let a = parse_args();
     std::panic::set_hook(Box::new(|_| {}));
     let mut sum = Summary::default();
-    sum.rule = "case = (dataset: default graph + 0..3 named graphs (one named by a blank node) sharing triples drawn from a pool with integers incl. isize::MIN/MAX, big and ill-typed ones, strings, booleans, decimals, doubles, dateTime, custom datatypes, language tags in both cases, quoted triples; query from the supported grammar: <= 4 triple patterns per BGP with repeated variables, blank node placeholders, quoted triple patterns, nested UNION / GRAPH (constant, variable, absent name) / FILTER (comparisons, BOUND, sameTerm, type errors) / BIND / sub-select / DISTINCT / projection / ORDER BY / OFFSET-LIMIT, [NOT] EXISTS (in FILTER, under connectives, in BIND and SELECT expressions) over GROUPS with FILTER / BIND / nested EXISTS / GRAPH that read variables of the enclosing group absent from the group's triple patterns (18.6 substitution; oracle by carrying the substitution out; sub-selects inside the group are decided when they hide no variable bound outside -- directed queries only, known finding EXISTS-SUBSELECT-DROPS-OUTER), comparisons over integer arithmetic that leaves the isize range and comes back; a second random stream of one BGP tested by one EXISTS group; or one of the directed queries incl. every unsupported operator); \
+    sum.rule = "case = (dataset: default graph + 0..3 named graphs (one named by a blank node) sharing triples drawn from a pool with integers incl. isize::MIN/MAX, big and ill-typed ones, strings, booleans, decimals, doubles, dateTime, custom datatypes, language tags in both cases, quoted triples; query from the supported grammar: <= 4 triple patterns per BGP with repeated variables, blank node placeholders, quoted triple patterns, nested UNION / GRAPH (constant, variable, absent name) / FILTER (comparisons, BOUND, sameTerm, type errors) / BIND / sub-select / DISTINCT / projection / ORDER BY / OFFSET-LIMIT, [NOT] EXISTS (in FILTER, under connectives, in BIND and SELECT expressions) over GROUPS with FILTER / BIND / nested EXISTS / GRAPH that read variables of the enclosing group absent from the group's triple patterns (18.6 substitution; oracle by carrying the substitution out; sub-selects inside the group are decided when they hide no variable bound outside -- directed queries only, known finding EXISTS-SUBSELECT-DROPS-OUTER), comparisons over integer arithmetic that leaves the isize range and comes back; a second random stream of one BGP tested by one EXISTS group; or one of the directed queries incl. every unsupported operator; streams `nested-*`: datasets made of quoted triples of depth 2 and 3 with their one-place variants (another constant / a quoted triple where there was an atom / an atom or a component where there was a quoted triple, at every depth) as subjects and objects in the default and in named graphs, queried by quoted-triple patterns that keep that structure down to depth 3 with inner patterns mixing constants, fresh / repeated / already bound variables and blank node placeholders -- in BGPs, inside GRAPH, inside [NOT] EXISTS, and through the whole random grammar -- plus directed queries of that kind); \
 non-trivial = the engine returned at least one row / true, or an error was expected; distinct = distinct (query text, dataset)".into();
     let base = Rng::new(a.seed);
     let dir = directed();
@@ -1412,6 +1743,12 @@ non-trivial = the engine returned at least one row / true, or an error was expec
     let ndata = 24usize;
     let mut datasets: Vec<Vec<Quad4>> = directed_datasets();
     for k in 0..ndata { let mut r = base.fork(1_000_000 + k as u64); datasets.push(gen_dataset(&mut r)); }
+    // the datasets of the streams `nested-*` come after the others (the random streams above keep drawing from the first ones)
+    let n_plain = datasets.len();
+    let dn_directed = datasets.len();
+    datasets.push(directed_nested_dataset());
+    let n_nested_data = 10usize;
+    for k in 0..n_nested_data { let mut r = base.fork(1_500_000 + k as u64); datasets.push(gen_nested_dataset(&mut r)); }
     let mut stores = vec![];
     let mut model_data = vec![]; // quads in the engine's iteration order, canonicalised
     for (k, q) in datasets.iter().enumerate() {
@@ -1430,16 +1767,27 @@ non-trivial = the engine returned at least one row / true, or an error was expec
     let mut cases = vec![];
     let mut seen = HashSet::new();
     let n_exists = a.n / 4;   // the stream `random-exists` comes after the random one
-    let total = dir.len() + a.n + n_exists;
+    // then the directed `nested` queries and the streams `nested-bgp` / `nested-random` / `nested-exists` (2 : 1 : 1)
+    let dirn = directed_nested();
+    let n_nested = a.n / 2;
+    let nested_from = dir.len() + a.n + n_exists;
+    let total = nested_from + dirn.len() + n_nested;
     let range: Vec<usize> = match a.only { Some(i) => vec![i], None => (0..total).collect() };
     for idx in range {
         EXOTIC_OPERAND.with(|f| f.set(false));
         SUBSELECT_DROPS_OUTER.with(|f| f.set(false));
         let mut r = base.fork(idx as u64);
-        let (label, di, text) = if idx < dir.len() { let (l, d, q) = &dir[idx]; (*l, *d, q.clone()) } else {
-            let di = r.below(datasets.len());
+        let (label, di, text) = if idx < dir.len() { let (l, d, q) = &dir[idx]; (*l, *d, q.clone()) }
+        else if idx >= nested_from && idx < nested_from + dirn.len() { let (l, q) = &dirn[idx - nested_from]; (*l, dn_directed, q.clone()) }
+        else if idx >= nested_from + dirn.len() {
+            let di = dn_directed + 1 + r.below(n_nested_data);
             let upper = r.chance(1, 3);
-            let mut g = Gen { r: &mut r, quads: &datasets[di], unsafe_vars: BTreeSet::new(), upper, wit: vec![], bn: 0, bnwit: vec![], fresh: 0 };
+            let mut g = Gen { r: &mut r, quads: &datasets[di], unsafe_vars: BTreeSet::new(), upper, wit: vec![], bn: 0, bnwit: vec![], fresh: 0, nested: true };
+            match (idx - nested_from - dirn.len()) % 4 { 0 | 1 => ("nested-bgp", di, g.nested_query()), 2 => ("nested-random", di, g.query()), _ => ("nested-exists", di, g.exists_query()) }
+        } else {
+            let di = r.below(n_plain);
+            let upper = r.chance(1, 3);
+            let mut g = Gen { r: &mut r, quads: &datasets[di], unsafe_vars: BTreeSet::new(), upper, wit: vec![], bn: 0, bnwit: vec![], fresh: 0, nested: false };
             if idx >= dir.len() + a.n { ("random-exists", di, g.exists_query()) } else { ("random", di, g.query()) }
         };
         let ds = Ds { quads: datasets[di].clone() };
@@ -1451,7 +1799,13 @@ non-trivial = the engine returned at least one row / true, or an error was expec
         if verbose { println!("  algebra: {q:?}"); }
         sum.evaluations += 1;
         // ---------- oracle ----------
-        let describe = |exp: &str| format!("{label}: query `{text}` on dataset [{}]: the engine answered {}; the algebra gives {exp}", datasets[di].iter().map(|(s, p, o, g)| format!("{} {} {} {}", s.sparql(false), p.sparql(false), o.sparql(false), g.as_ref().map(|g| g.sparql(false)).unwrap_or_default())).collect::<Vec<_>>().join(" . "), match &obs { Obs::Rows(v, r) => format!("{} row(s) over {v:?}: {:?}", r.len(), canon_rows(v, r)), o => format!("{o:?}") });
+        let describe = |exp: &str| {
+            let data = datasets[di].iter().map(|(s, p, o, g)| format!("{} {} {} {}", s.sparql(false), p.sparql(false), o.sparql(false), g.as_ref().map(|g| g.sparql(false)).unwrap_or_default())).collect::<Vec<_>>().join(" . ");
+            let answered = match &obs { Obs::Rows(v, r) => format!("{} row(s) over {v:?}: {:?}", r.len(), canon_rows(v, r)), o => format!("{o:?}") };
+            // the datasets of the `nested` streams are large: the query, the answer and the expectation come first
+            if label.starts_with("nested") { format!("{label}: query `{text}` on dataset d{di}: the engine answered {answered}; the algebra gives {exp}; dataset d{di} = [{data}]") }
+            else { format!("{label}: query `{text}` on dataset [{data}]: the engine answered {answered}; the algebra gives {exp}") }
+        };
         let (pat, is_ask, has_ds) = match &q { Qy::Select(d, p) => (Some(p), false, *d), Qy::Ask(d, p) => (Some(p), true, *d), _ => (None, false, false) };
         let expect_err = pat.is_none() || has_ds || pat_unsupported(pat.unwrap());
         let mut nontrivial = false;
@@ -1519,6 +1873,25 @@ non-trivial = the engine returned at least one row / true, or an error was expec
             }
         }
         sum.bump(&format!("stream:{label}"));
+        // quoted-triple patterns nested in quoted-triple patterns: where they occur, and whether the answer depends on them
+        if let (Some(p), false) = (pat, expect_err) {
+            let mut sh = BTreeSet::new(); nested_shapes(p, false, false, &mut sh);
+            if !sh.is_empty() {
+                let stream = if label.starts_with("nested") { if idx < nested_from + dirn.len() { "nested-directed" } else { label } } else { "other-streams" };
+                for o in &sh { sum.bump(&format!("{o} ({stream})")) }
+                let exotic_before = EXOTIC_OPERAND.with(|f| f.get());
+                let flags_before = SUBSELECT_DROPS_OUTER.with(|f| f.get());
+                if let Ok((good, _)) = eval_top(p, &ds) {
+                    INNER_PATTERNS_ACCEPT_ANYTHING.with(|f| f.set(true));
+                    let bad = eval_top(p, &ds);
+                    INNER_PATTERNS_ACCEPT_ANYTHING.with(|f| f.set(false));
+                    if let Ok((bad, _)) = bad { let all: Vec<String> = good.iter().chain(bad.iter()).flat_map(|m| m.keys().cloned()).collect::<BTreeSet<_>>().into_iter().collect();
+                        if canon_mus(&all, &good) != canon_mus(&all, &bad) { sum.bump(&format!("nested:the-answer-depends-on-an-INNER-non-ground-pattern-rejecting-a-term-of-the-data ({stream})")); } }
+                }
+                EXOTIC_OPERAND.with(|f| f.set(exotic_before));
+                SUBSELECT_DROPS_OUTER.with(|f| f.set(flags_before));
+            }
+        }
         if let Some(p) = pat { let mut ops = BTreeSet::new(); collect_ops(p, &mut ops); for o in ops { sum.bump(&format!("op:{o}")) }
             let mut sh = BTreeSet::new(); exists_shapes(p, false, 0, &mut sh); for o in sh { sum.bump(&o) } }
         if seen.insert((text.clone(), di)) && nontrivial { sum.distinct_nontrivial += 1; }
